@@ -352,6 +352,14 @@ fn check_other_fields(ctx: &mut Ctx, idx: usize, key: &str, before: &Value, afte
 /// tolerance choice: None, or (value, unit); `limit_m` is the great-circle distance (metres) to the element
 /// the matcher should pick, `limit_code` the value the code itself compares against (in `unit`)
 fn gen_tolerance(rng: &mut Rng, limit_m: Option<f64>, limit_code: &dyn Fn(&DistanceUnit) -> Option<f64>) -> (Option<(f64, DistanceUnit)>, &'static str) {
+    // a configuration file cannot hold a non-finite number (an infinite distance_2 arises from extreme coordinates)
+    match gen_tolerance_raw(rng, limit_m, limit_code) {
+        (Some((v, u)), _) if !v.is_finite() => (Some((f64::MAX / 4.0, u)), "tol_huge"),
+        other => other,
+    }
+}
+
+fn gen_tolerance_raw(rng: &mut Rng, limit_m: Option<f64>, limit_code: &dyn Fn(&DistanceUnit) -> Option<f64>) -> (Option<(f64, DistanceUnit)>, &'static str) {
     if rng.chance(3, 10) {
         return (None, "tol_none");
     }
